@@ -8,6 +8,15 @@ import vlib
 
 # property -> configuration
 CONFIG = {
+    "C01": dict(
+        drivers=[("store", "store")], run="C01", shard=20,
+        header="From Whawty Require Import Names Record Store StoreSpec.",
+        rule="random operation histories (12-40 ops) on a real directory: 2-6 users incl. prefix-sharing, over-long and invalid names, "
+             "1-4 parameter sets of both algorithms with cheap costs, default switched mid-history (also to an unconfigured id), "
+             "passwords biased to the near-misses of C01 (prefix, extension, case, whitespace, NUL, bit flip, 63/64/65 bytes, several KiB, "
+             "sha256 of a long password, other users' passwords); per op: result + byte-level directory snapshot; "
+             "non-trivial = the history authenticates after at least one acknowledged write; distinct = distinct history terms",
+    ),
     "C13": dict(
         drivers=[("sasl", "sasl")], run="C13", shard=600, header="From Whawty Require Import SaslCodec.",
         rule="cases: boundary-length encodes (exhaustive over {0,1,255,256,257}^4 + 65535/65536), every byte string up to length 5 (7 thorough) "
@@ -65,7 +74,10 @@ def run(rep, tier, seed, replay, config=None, post=None):
                                        timeout=cfg.get("timeout", 1500))
         cov.setdefault("driver_wall_s", {})[hdir] = round(time.time() - t0, 1)
         got = vlib.load_cases(out_path)
-        cases += got
+        for g in got:
+            if g.get("kind") == "stats":
+                cov.setdefault("op_result_distribution", {}).update(g.get("human") or {})
+        cases += [g for g in got if g.get("kind") != "stats"]
         if not okd:
             driver_failed = outd[-4000:]
     cov["evaluations"] = len(cases)
